@@ -102,6 +102,14 @@ def run_seed(args):
             return (sid, prop, "missed", f"ANALYSIS-ERROR instead of a finding: {e}")
         return (sid, prop, "false-alarm", f"twin produced ANALYSIS-ERROR: {e}")
     new = [f for f in ctx.findings if f.key not in base]
+    if not new and getattr(ctx, "errors", None):
+        # a sub-rule could not decide and nothing new was found (known findings are in ctx.findings): no verdict
+        e = "; ".join(ctx.errors[:3])
+        if kind == "seed":
+            if expect == "ANALYSIS-ERROR":
+                return (sid, prop, "detected", f"analysis error: {e}")
+            return (sid, prop, "missed", f"ANALYSIS-ERROR instead of a finding: {e}")
+        return (sid, prop, "false-alarm", f"twin produced ANALYSIS-ERROR: {e}")
     if kind == "seed":
         hits = [f for f in new if f.rule.startswith(expect)] if expect != "ANALYSIS-ERROR" else []
         if hits:
